@@ -176,6 +176,28 @@ func init() {
 		}
 		b1, b2, b3 := c11QueryLoop(bfd)
 		r1, r2, r3 := c11QueryLoop(rfd)
+		l.p("/-- per loop: (waits exactly when `err == io.EOF && limit == lim && WaitTimeout > 0`, fresh `context.WithTimeout` per wait, `break` on a wait error) -/")
+		l.p("def backendLoopShape : Bool × Bool × Bool := (%s, %s, %s)", leanBool(b1), leanBool(b2), leanBool(b3))
+		l.p("def rpcLoopShape : Bool × Bool × Bool := (%s, %s, %s)", leanBool(r1), leanBool(r2), leanBool(r3))
+		// rpc only: `if lim == 0 && rq.WaitTimeout <= 0 { … SendResponse(empty); return }` before the cursor is created
+		early := false
+		if rfd != nil {
+			ast.Inspect(rfd.Body, func(n ast.Node) bool {
+				if is, ok := n.(*ast.IfStmt); ok {
+					sc := c11Idents(is.Cond)
+					if strings.Contains(sc, "lim ") && strings.Contains(sc, "WaitTimeout") && strings.Contains(sc, "<= ") && strings.Contains(sc, "== ") && strings.Count(sc, "&&") == 1 {
+						for _, st := range is.Body.List {
+							if _, ok := st.(*ast.ReturnStmt); ok {
+								early = true
+							}
+						}
+					}
+				}
+				return true
+			})
+		}
+		l.p("/-- `rpc.ServerQuerier.query` answers empty before creating a cursor when `lim == 0 && WaitTimeout <= 0` -/")
+		l.p("def rpcEarlyEmptyForZeroLimit : Bool := %s", leanBool(early))
 		l.p("/-- both loops wait exactly when `err == io.EOF && limit == lim && WaitTimeout > 0` -/")
 		l.p("def queryLoopWaitCondition : Bool := %s", leanBool(b1 && r1))
 		l.p("/-- … with a fresh `context.WithTimeout` per wait -/")
